@@ -7,7 +7,12 @@ payload: {"cases": [{"appends": [A...], "queries": [Q...]}]}
         datetime: chronicle.append with timing.completed a datetime (UTC)
         string  : chronicle.append with timing.completed = str(datetime) (what schedule.complete hands over)
         complete: schedule.complete(job, runid, target, timing, State[status]) under a clock frozen at `completed`
-  Q = {"after": DT|null, "before": DT|null, "limit": n|null, "succeeded": bool, "now": DT}
+  Q = {"after": DT|null, "before": DT|null, "limit": n|null, "succeeded": bool, "now": DT,
+       "relabel": bool}      # relabel: the caller then relabels the returned dicts in place, as
+                             # fe.api.df_model_statistics does (known['status'] = 'failed'/'succeeded')
+    | {"kind": "stats", "node": str, "boot": DT, "now": DT}      # the REAL dawgie.fe.api.df_model_statistics
+    | {"kind": "api", "which": "failed"|"succeeded", "before": DT|null, "limit": n|null, "now": DT}
+                             # the REAL dawgie.fe.api.schedule.failed / succeeded (HTTP argument lists)
 result per case:
   {"files": {"YYYY/MM/DD/<runid>.json": [ids...]},   # the journal after all appends, entries in file order
    "after_each": [[path, [ids...]] ...]              # the file touched by each append, after it
@@ -127,6 +132,29 @@ def run_case(case, root):
     answers = []
     for q in case['queries']:
         Frozen._now = frozen(q['now'])
+        if q.get('kind') == 'stats':
+            import dawgie.fe.api as API
+            dawgie.context.boot_time = mk(q['boot'])
+            try:
+                r = json.loads(API.df_model_statistics([q['node']]))
+                answers.append({'stats': r['content'], 'status': r['status']})
+            except Exception as e:
+                answers.append({'exc': type(e).__name__, 'msg': str(e)[:200]})
+            continue
+        if q.get('kind') == 'api':
+            import dawgie.fe.api.schedule as APIS
+            kw = {}
+            if q['before'] is not None:
+                kw['before'] = [mk(q['before']).isoformat()]
+            if q['limit'] is not None:
+                kw['limit'] = [str(q['limit'])]
+            try:
+                r = json.loads(getattr(APIS, q['which'])(**kw))
+                answers.append({'ok': [int(e['changeset'][1:]) for e in r['content']], 'type': 'api',
+                                'labels': sorted(set(e['status'] for e in r['content']))})
+            except Exception as e:
+                answers.append({'exc': type(e).__name__, 'msg': str(e)[:200]})
+            continue
         kw = {'succeeded': q['succeeded']}
         if q['after'] is not None:
             kw['after'] = mk(q['after'])
@@ -136,7 +164,11 @@ def run_case(case, root):
             kw['limit'] = q['limit']
         try:
             r = C.find(**kw)
-            answers.append({'ok': [int(e['changeset'][1:]) for e in r], 'type': type(r).__name__})
+            answers.append({'ok': [int(e['changeset'][1:]) for e in r], 'type': type(r).__name__,
+                            'labels': sorted(set(e['status'] for e in r))})
+            if q.get('relabel'):
+                for e in r:
+                    e['status'] = 'succeeded' if q['succeeded'] else 'failed'
         except Exception as e:  # the class is the observation
             answers.append({'exc': type(e).__name__, 'msg': str(e)[:200]})
     return {'files': files, 'after_each': after_each, 'entries': entries, 'answers': answers}
